@@ -14,7 +14,7 @@ for v in variants:
     sid = next((k for k, val in M.items() if val == [pid, v]), None)
     if sid is None:
         used = {os.path.basename(d)[-1] for d in glob.glob(os.path.join(HERE, 'seeded', pid + '_?'))}
-        sid = pid + '_' + next(c for c in 'abcdefghijk' if c not in used)
+        sid = pid + '_' + next(c for c in 'abcdefghijklmnopqrstuvwxyz' if c not in used)
         M[sid] = [pid, v]
     dst = os.path.join(HERE, 'seeded', sid)
     os.makedirs(dst, exist_ok=True)
